@@ -774,4 +774,127 @@ theorem step_transfer_refused (cls : Classifier) (sys : Sys) (i j n : Nat) (cur 
           simp only [deposit, (regenerate_spec cls b n cur).2] at h
           simp at h
 
+/-! ### GTP and NADH never exceed their capacities -/
+
+/-- GTP and NADH are within their capacities (ATP need not be: a refused spend keeps its NADH top-up). -/
+structure Store.Within (s : Store) : Prop where
+  wf : s.WF
+  gtp : s.gtp ≤ s.maxGtp
+  nadh : s.nadh ≤ s.maxNadh
+
+theorem consumeCore_gn (s : Store) (cost : Nat) (cur : Cur) (d : Bool) (p : Nat) (h : s.WF) :
+    (consumeCore s cost cur d p).1.gtp ≤ s.gtp ∧ (consumeCore s cost cur d p).1.nadh ≤ s.nadh := by
+  obtain ⟨h1, h2, h3, h4, h5, h6, h7⟩ := h
+  consume_cases <;> leaf <;> omega
+
+theorem withdraw_le (s : Store) (n : Nat) (cur : Cur) :
+    (withdraw s n cur).1.gtp ≤ s.gtp ∧ (withdraw s n cur).1.nadh ≤ s.nadh := by
+  unfold withdraw; cases cur <;> (repeat' split) <;> leaf2 <;> omega
+
+theorem convert_le (s : Store) (n : Nat) : (convert s n).1.gtp ≤ s.gtp ∧ (convert s n).1.nadh ≤ s.nadh := by
+  unfold convert; dsimp only; (repeat' split) <;> leaf2 <;> omega
+
+theorem within_consume (cls : Classifier) (s : Store) (cost : Nat) (cur : Cur) (d : Bool) (p : Nat)
+    (h : s.Within) : (consume cls s cost cur d p).1.Within := by
+  obtain ⟨st, e⟩ := consume_eq cls s cost cur d p
+  have hs := consumeCore_spec s cost cur d p
+  have hg := consumeCore_gn s cost cur d p h.wf
+  have w := hs.wf h.wf
+  obtain ⟨c1, c2, c3, -⟩ := hs.cfg
+  rw [e]
+  exact ⟨⟨w.1, w.2, w.3, w.4, w.5, w.6, w.7⟩, by have := h.gtp; simp only []; omega, by have := h.nadh; simp only []; omega⟩
+
+theorem within_regenerate (cls : Classifier) (s : Store) (n : Nat) (cur : Cur) (h : s.Within) :
+    (regenerate cls s n cur).1.Within := by
+  have hs := (regenerate_spec cls s n cur).1
+  obtain ⟨c1, c2, c3, -⟩ := hs.cfg
+  have g := hs.capped .gtp; have m := hs.capped .nadh
+  simp only [Store.bal, Store.cap] at g m
+  exact ⟨hs.wf h.wf, by have := h.gtp; omega, by have := h.nadh; omega⟩
+
+theorem within_withdraw (s : Store) (n : Nat) (cur : Cur) (h : s.Within) : (withdraw s n cur).1.Within := by
+  have hs := withdraw_spec s n cur
+  obtain ⟨c1, c2, c3, -⟩ := hs.cfg
+  have := withdraw_le s n cur
+  exact ⟨hs.wf h.wf, by have := h.gtp; omega, by have := h.nadh; omega⟩
+
+theorem within_convert (s : Store) (n : Nat) (h : s.Within) : (convert s n).1.Within := by
+  have hs := convert_spec s n
+  obtain ⟨c1, c2, c3, -⟩ := hs.cfg
+  have := convert_le s n
+  exact ⟨hs.wf h.wf, by have := h.gtp; omega, by have := h.nadh; omega⟩
+
+theorem Store.Within.setState {s : Store} (h : s.Within) (st : MState) : Store.Within { s with state := st } :=
+  ⟨⟨h.wf.1, h.wf.2, h.wf.3, h.wf.4, h.wf.5, h.wf.6, h.wf.7⟩, h.gtp, h.nadh⟩
+
+theorem within_reset (cls : Classifier) (s : Store) (h : s.Within) : (reset cls s).1.Within := by
+  obtain ⟨st, e⟩ := reset_eq cls s
+  rw [e]
+  have w := (quiet_resetCore s).wf h.wf
+  exact Store.Within.setState ⟨w, Int.le_refl _, Int.le_refl _⟩ st
+
+theorem within_wake (cls : Classifier) (s : Store) (h : s.Within) : (exitDormancy cls s).1.Within := by
+  obtain ⟨st, e⟩ := exitDormancy_eq cls s
+  rw [e]; exact h.setState st
+
+theorem within_interest (s : Store) (h : s.Within) : (applyInterest s).Within :=
+  ⟨(applyInterest_spec s).wf h.wf, h.gtp, h.nadh⟩
+
+/-- `Within` holds for every store of the colony -/
+def Sys.Within (sys : Sys) : Prop := ∀ (i : Nat) (s : Store), sys[i]? = some s → s.Within
+
+theorem onStore_all {P : Store → Prop} (sys : Sys) (j : Nat) (f : Store → Store × Ret)
+    (h : ∀ (i : Nat) (s : Store), sys[i]? = some s → P s) (hf : ∀ s, P s → P (f s).1) :
+    ∀ (i : Nat) (s : Store), (onStore sys j f).1[i]? = some s → P s := by
+  intro i s hs
+  rw [onStore_get] at hs
+  by_cases e : j = i
+  · simp only [e, reduceIte] at hs
+    cases hi : sys[i]? with
+    | none => rw [hi] at hs; simp at hs
+    | some t => rw [hi] at hs; simp at hs; subst hs; exact hf t (h i t hi)
+  · simp only [e, reduceIte] at hs; exact h i s hs
+
+theorem set_all {P : Store → Prop} (sys : Sys) (j : Nat) (x : Store)
+    (h : ∀ (i : Nat) (s : Store), sys[i]? = some s → P s) (hx : P x) :
+    ∀ (i : Nat) (s : Store), (sys.set j x)[i]? = some s → P s := by
+  intro i s hs
+  rw [List.getElem?_set] at hs
+  by_cases e : j = i
+  · simp only [e, reduceIte] at hs
+    split at hs
+    · cases hs; exact hx
+    · cases hs
+  · simp only [e, reduceIte] at hs; exact h i s hs
+
+theorem step_within (cls : Classifier) (sys : Sys) (op : Op) (h : Sys.Within sys) : Sys.Within (step cls sys op).1 := by
+  cases op with
+  | consume j cost cur d p => exact onStore_all sys j _ h (fun s hs => within_consume cls s cost cur d p hs)
+  | regenerate j n cur => exact onStore_all sys j _ h (fun s hs => within_regenerate cls s n cur hs)
+  | convert j n => exact onStore_all sys j _ h (fun s hs => within_convert s n hs)
+  | dorm j => exact onStore_all sys j _ h (fun s hs => hs.setState _)
+  | wake j => exact onStore_all sys j _ h (fun s hs => within_wake cls s hs)
+  | interest j => exact onStore_all sys j _ h (fun s hs => within_interest s hs)
+  | reset j => exact onStore_all sys j _ h (fun s hs => within_reset cls s hs)
+  | transfer a b n cur =>
+    simp only [step]
+    cases ha : sys[a]? with
+    | none => exact h
+    | some sa =>
+      cases hb : sys[b]? with
+      | none => exact h
+      | some sb =>
+        simp only []
+        have h1 := set_all sys a _ h (within_withdraw sa n cur (h a sa ha))
+        split
+        · exact onStore_all _ b _ h1 (fun s hs => within_regenerate cls s n cur hs)
+        · exact h1
+
+theorem run_within (cls : Classifier) : ∀ (ops : List Op) (sys : Sys), Sys.Within sys → Sys.Within (run cls sys ops).1
+  | [], _, h => h
+  | op :: ops, sys, h => run_within cls ops _ (step_within cls sys op h)
+
+theorem fresh_within (b g n md rn rd : Nat) : (Store.fresh b g n md rn rd).Within :=
+  ⟨fresh_wf b g n md rn rd, by simp [Store.fresh], by simp [Store.fresh]⟩
+
 end Operon.Atp
